@@ -113,31 +113,52 @@ example : (MemFs.run MemFs.init [.mkdir "/a".toList 0o755, .create "/a/f".toList
 
 /-- **the tree stays self-consistent** (every existing path is listed by its parent directory, every
     listed entry exists and is listed under its own name, every existing path has an existing parent
-    directory, every name leads to an allocated object that carries that name): after any program
-    whose operations meet, in the state they run in, the ordinary preconditions `WFop` — Create of
-    anything but an existing directory; Mkdir, MkdirAll and creating OpenFile of any name, **however
-    many levels are missing above it**; Remove of a file or an empty directory; **RemoveAll of any
-    name but the root, with whatever lies below it**; Rename of a file or an empty directory to a free name
-    or over another file or empty directory, below any existing directory (`MemFs.RenameLeaf`); every
-    metadata call, every open, every method of every handle, in any number and any order. PARTIAL: Rename
-    of a directory that has entries is outside this fragment (for it the invariant is checked on the
-    implementation, by reflection, after every generated program). -/
+    directory, every name leads to an allocated object that carries that name, and the path map holds
+    one entry per name): after any program whose operations meet, in the state they run in, the
+    ordinary preconditions `WFop` — Create of anything but an existing directory; Mkdir, MkdirAll and
+    creating OpenFile of any name, however many levels are missing above it; Remove of a file or an
+    empty directory; RemoveAll of any name but the root, with whatever lies below it; Rename of a file
+    or an empty directory to a free name or over another file or empty directory (`RenameLeaf`), and of
+    a directory **with its whole subtree** to a free name outside itself (`RenameSubtree`); every metadata
+    call, every open, every method of every handle — in any number and any order. These are the
+    preconditions the property itself states ("parents exist as directories, files and directories are
+    not confused, only files or empty directories are removed, renames target a free name or replace
+    file by file"); every one of the 24 operations of the model is covered. -/
 theorem tree_consistent_fragment (ops : List Op) (hw : MemFs.WFrun MemFs.init ops) :
     MemFs.Consistent (MemFs.run MemFs.init ops) :=
-  MemFs.consistent_run_wf ops MemFs.init MemFs.consistent_init hw
+  (MemFs.consistent_run_wf ops MemFs.init MemFs.consistent_init MemFs.keysNodup_init hw).1
+
+/-- the path map never holds two entries for one name — after ANY operation sequence, well-formed or not -/
+theorem one_entry_per_name (ops : List Op) : MemFs.KeysNodup (MemFs.run MemFs.init ops) :=
+  MemFs.keysNodup_run ops MemFs.init MemFs.keysNodup_init
 
 /-- the building blocks, stated for any consistent state: -/
 theorem removeAll_keeps_consistent (m : MemFs) (hc : MemFs.Consistent m) (p : Str) (h : (keyOfStr p).segs ≠ []) :
     MemFs.Consistent (m.step (.removeAll p)).1 :=
-  MemFs.consistent_step_wf m _ hc h
+  MemFs.consistent_removeAll m hc _ h (normKey_keyOfStr p)
 
 theorem mkdirAll_keeps_consistent (m : MemFs) (hc : MemFs.Consistent m) (p : Str) (perm : Nat) :
-    MemFs.Consistent (m.step (.mkdirAll p perm)).1 :=
-  MemFs.consistent_step_wf m _ hc trivial
+    MemFs.Consistent (m.step (.mkdirAll p perm)).1 := by
+  have hmk := MemFs.consistent_mkdir m hc (keyOfStr p) (normKey_keyOfStr p) perm
+  simp only [MemFs.step]
+  unfold MemFs.mkdirAll
+  split
+  · rename_i m' heq; rw [heq] at hmk; exact hmk
+  · exact hmk
 
 theorem rename_leaf_keeps_consistent (m : MemFs) (hc : MemFs.Consistent m) (a b : Str)
     (h : MemFs.RenameLeaf m (keyOfStr a) (keyOfStr b)) : MemFs.Consistent (m.step (.rename a b)).1 :=
-  MemFs.consistent_step_wf m _ hc (Or.inr (Or.inr h))
+  MemFs.consistent_rename_of_renameLeaf m hc _ _ h
+
+/-- renaming a directory moves its whole subtree and keeps the tree consistent -/
+theorem rename_subtree_keeps_consistent (m : MemFs) (hc : MemFs.Consistent m) (hk : MemFs.KeysNodup m) (a b : Str)
+    (h : MemFs.RenameSubtree m (keyOfStr a) (keyOfStr b)) : MemFs.Consistent (m.step (.rename a b)).1 :=
+  MemFs.consistent_step_wf m _ hc hk (Or.inr (Or.inr (Or.inr h)))
+
+/-- non-vacuity: in the state after `mkdir /a; mkdir /a/b; create /a/b/f; create /a/g` the call
+    `rename /a /z` meets `RenameSubtree` -/
+example : MemFs.RenameSubtree MemFs.exD MemFs.dA MemFs.dZ :=
+  ⟨1, by decide, by decide, by decide, by decide, by decide, 0, _, by decide, rfl⟩
 
 /-- **every existing path has all its ancestors** -/
 theorem ancestors_exist (m : MemFs) (hc : MemFs.Consistent m) (a k : Key) (f : Nat) (hn : normKey a = a)
